@@ -78,7 +78,7 @@ Theorem C14_modify_frame : forall fe p v now o ok o',
   (forall q, ps_incomp p q -> ps_get_attr q o' = ps_get_attr q o) /\
   (ps_orig_dict o' = ps_orig_dict o \/
    (ps_dcontains p (ps_orig_dict o) = false /\ ps_orig_dict o' = ps_dset p (ps_get_attr p o) (ps_orig_dict o))) /\
-  (ps_dcontains p (ps_orig_dict o') = true \/ ps_m_fields o' = ps_m_fields o).
+  (if ok then ps_dcontains p (ps_orig_dict o') = true else ps_m_fields o' = ps_m_fields o).
 Proof. exact ps_modify_spec. Qed.
 Print Assumptions C14_modify_frame.
 
